@@ -615,6 +615,22 @@ def run_trio(case):
             _thread_jobs[0] -= 1
 
     _tt.run_sync = counting_run_sync
+    # a WSGI thread that calls back into trio and waits (the send path) is parked on trio-side work, not running
+    import trio.from_thread as _ft
+
+    orig_from_thread_run = _ft.run
+
+    def parked_from_thread_run(afn, *args, **kw):
+        async def wrapped(*a):
+            _thread_jobs[0] -= 1  # on the trio thread
+            try:
+                return await afn(*a)
+            finally:
+                _thread_jobs[0] += 1
+        return orig_from_thread_run(wrapped, *args, **kw)
+
+    _ft.run = parked_from_thread_run
+    trio.from_thread.run = parked_from_thread_run
     try:
         trio.run(main, clock=clock, instruments=[_Inst()])
     except CaseTimeout:
@@ -629,6 +645,8 @@ def run_trio(case):
             obs.harness_error = text[-3000:]
     finally:
         _tt.run_sync = orig_run_sync
+        _ft.run = orig_from_thread_run
+        trio.from_thread.run = orig_from_thread_run
     return obs
 
 
